@@ -549,6 +549,12 @@ func (r *RIB) addEntryInternal(ni string, op *spb.AFTOperation, oks, fails *[]*O
 
 	switch {
 	case opErr != nil:
+		// The error is fatal for this entry, so it must not be retried - ensure
+		// that it is removed from the pending queue if it was previously queued,
+		// and that callers further up the stack (which hold a snapshot of the
+		// pending queue) do not try it again.
+		r.rmPendingOp(op)
+		installStack[op.GetId()] = true
 		*fails = append(*fails, &OpResult{
 			ID:    op.GetId(),
 			Op:    op,
@@ -897,6 +903,16 @@ func (r *RIB) rmPending(id uint64) {
 	r.pendMu.Lock()
 	defer r.pendMu.Unlock()
 	delete(r.pendingEntries, id)
+}
+
+// rmPendingOp removes the operation op from the RIB's pendingEntries if it is
+// the operation that is queued under its ID.
+func (r *RIB) rmPendingOp(op *spb.AFTOperation) {
+	r.pendMu.Lock()
+	defer r.pendMu.Unlock()
+	if p, ok := r.pendingEntries[op.GetId()]; ok && p.op == op {
+		delete(r.pendingEntries, op.GetId())
+	}
 }
 
 // canResolve takes an input candidate RIB, which contains only the new entry
